@@ -224,12 +224,19 @@ EB_VARIANTS = {
     15: [(66, 68), (66, 73)],
     16: [(66, 0), (66, 1)],
 }
+# an entry block may be empty (size 0, no value): it must decode as written, not as the block's built-in default
+# (not block 2, the datum specification block type: without it the channel blocks cannot be read and the library refuses)
+EB_EMPTY_CODE = {1: 66, 3: 79, 4: 66, 5: 66, 6: 68, 7: 65, 8: 68, 9: 65, 11: 66, 12: 68, 13: 66, 14: 65, 15: 66, 16: 66}
+for _t, _rc in EB_EMPTY_CODE.items():
+    EB_VARIANTS[_t] = EB_VARIANTS[_t] + [(_rc, None)]
 EB_TYPES = sorted(EB_VARIANTS)
 EB_ATTR = {1: 'dataType', 2: 'dsbType', 4: 'upDown', 5: 'optLogScale', 8: 'frameSpacing', 9: 'frameSpacingUnits',
            12: 'absentValue', 13: 'recordingMode', 14: 'depthUnits', 15: 'depthRepCode'}
 
 
 def eb_value_bytes(rc, v):
+    if v is None:
+        return b''
     if rc == 65:
         return v
     if rc == 68:
@@ -289,7 +296,7 @@ def check_dfsr(case):
     by_type = {p[0]: p for p in parsed}
     for t, rc, v in blocks:
         vb = eb_value_bytes(rc, v)
-        if rc == 68 and not exact68(v):
+        if rc == 68 and v is not None and not exact68(v):
             continue
         if by_type.get(t) != (t, len(vb), rc, vb):
             bad.append(({'kind': 'entry_block_bytes', 'type': t}, 'entry block %d written as %r, LIS-79 encoding is %r' % (t, by_type.get(t), (t, len(vb), rc, vb))))
@@ -320,7 +327,7 @@ def check_dfsr(case):
         if (eb.type, eb.repCode) != (t, rc) or not same_value(eb.value, exp):
             bad.append(({'kind': 'entry_block_value', 'type': t}, 'entry block %d decoded (type, code, value)=%r written %r'
                         % (t, (eb.type, eb.repCode, eb.value), (t, rc, exp))))
-        if t in EB_ATTR and not same_value(getattr(d.ebs, EB_ATTR[t]), exp):
+        if exp is not None and t in EB_ATTR and not same_value(getattr(d.ebs, EB_ATTR[t]), exp):
             bad.append(({'kind': 'entry_block_attribute', 'type': t}, 'ebs.%s=%r written %r' % (EB_ATTR[t], getattr(d.ebs, EB_ATTR[t]), exp)))
     got = []
     for b in d.dsbBlocks:
